@@ -14,7 +14,7 @@ MODULE = ("Atmosphere", "typhon/physics/atmosphere.py", [
     {"name": "e_eq_ice_mk"},
     {"name": "e_eq_water_mk"},
     {"name": "e_eq_mixed_mk", "glue": [
-        "is_float_input = isinstance(T, Number)",
+        "is_float_input = isinstance(T, Number) or np.ndim(T) == 0",
         "if is_float_input:\n    T = np.asarray([T])",
     ], "return_glue": "e_eq[0] if is_float_input else e_eq"},
     {"name": "relative_humidity2vmr", "fun_params": {"e_eq": "e_eq_water_mk"}},
